@@ -39,7 +39,14 @@ ARR = {
     "alias_only": ('#[serde(alias = "Qkey")]', False),
     "typeshare_rename": ('#[typeshare(rename = "Qkey")]', False),
     "rename_first_of_two": ('#[serde(rename = "Qkey")] #[serde(default)]', True),
+    "list_before": ('#[serde(bound(deserialize = "T: X"), rename = "Qkey")]', True),
+    "list_after": ('#[serde(rename = "Qkey", bound(deserialize = "T: X"))]', True),
+    # the container's rename_all attribute in other spellings (the member has no attribute of its own)
+    "ra_list_before": ("", False), "ra_list_after": ("", False), "ra_bare_before": ("", False), "ra_second_attr": ("", False), "ra_value_before": ("", False),
 }
+RA_FORM = {"ra_list_before": '#[serde(bound(deserialize = "T: X"), rename_all = "%s")]', "ra_list_after": '#[serde(rename_all = "%s", bound(deserialize = "T: X"))]',
+           "ra_bare_before": '#[serde(deny_unknown_fields, rename_all = "%s")]', "ra_second_attr": '#[serde(deny_unknown_fields)] #[derive(Debug)] #[serde(rename_all = "%s")]',
+           "ra_value_before": '#[serde(crate = "serde", rename_all = "%s")]'}
 RAW = {"self_": None, "super_": None, "None_": None}
 
 
@@ -60,7 +67,7 @@ def key_alphabet(I, cs):
 def case_p(case):
     container, rule, where, arr, ident_kind, n, kn = case
     attr, has_rename = ARR[arr]
-    ra = '#[serde(rename_all = "%s")]' % rule if rule else ""
+    ra = RA_FORM.get(arr, '#[serde(rename_all = "%s")]') % rule if rule else ""
     ident_txt = "Qidn" if ident_kind == "sym" else ("r#%s" % ident_kind if ident_kind in ("type", "match", "enum", "struct", "fn", "let", "in", "as", "async") else ident_kind.rstrip("_"))
     if ident_kind in ("self_", "super_"):
         ident_txt = ident_kind
@@ -258,6 +265,10 @@ def run(rep, tier, only=None):
                     p_cases.append((container, rule, where, "none", "sym", n, 1))
                 for ai, arr in enumerate(arrs):
                     if tier == "quick" and (ai + RULES.index(rule) + sd) % 3 != 0 and arr not in ("none", "own"):
+                        continue
+                    if arr.startswith("ra_"):
+                        if rule is not None:
+                            p_cases.append((container, rule, where, arr, "sym", 2, 1))
                         continue
                     for kn in ((1, 3) if tier == "quick" else (1, 2, 3)):
                         p_cases.append((container, rule, where, arr, "sym", 2, kn))
